@@ -377,8 +377,36 @@ func genC09(g *Gen, tier string, idx int) *wire.Scenario {
 	default:
 		x.Typed = g.word(false, 5)
 	}
+	// entries that share only the beginning of what is typed: the ones a search with a shortened
+	// search text would wrongly find
+	if rt := []rune(x.Typed); len(rt) > 1 && g.P(50) {
+		es := env.History[0].Entries
+		for i := 0; i < g.Range(1, 2); i++ {
+			e := string(rt[:g.Range(1, len(rt)-1)]) + "Z" + g.word(false, 2)
+			e = strings.TrimSpace(strings.ReplaceAll(e, "\n", " "))
+			at := g.N(len(es) + 1)
+			es = append(es[:at], append([]string{e}, es[at:]...)...)
+		}
+		env.History[0].Entries = es
+		sc.Env = env
+	}
 	for _, r := range x.Typed {
 		sc.Script = append(sc.Script, tok(string(r), "typed"))
+	}
+	// the point is not always at the end of what was typed: an edit in the middle (which saves a
+	// state of the line with the point there) and motions afterwards (which do not)
+	if len(x.Typed) > 1 && g.P(35) {
+		back := g.Range(1, len([]rune(x.Typed))-1)
+		for i := 0; i < back; i++ {
+			sc.Script = append(sc.Script, tok(g.Cat.ShortSeqFor(km, "backward-char"), "point-move"))
+		}
+		if g.P(60) {
+			// insert a character and delete it again: same text, a saved state with the point here
+			sc.Script = append(sc.Script, tok("q", "point-edit"), tok(g.Cat.ShortSeqFor(km, "backward-delete-char"), "point-edit"))
+		}
+		for i := 0; i < g.N(back+2); i++ {
+			sc.Script = append(sc.Script, tok(g.Cat.ShortSeqFor(km, Pick(g, []string{"forward-char", "forward-char", "end-of-line", "backward-char"})), "point-move"))
+		}
 	}
 	steps := g.Range(1, 12)
 	if g.P(15) {
@@ -527,7 +555,18 @@ func execC09(x *Ctx, sc *wire.Scenario) *wire.Result {
 		if variants[before.Line] && !staleBefore {
 			// every (text, point) in which the line being typed was seen: the prefix searches take
 			// their search text from that line, as it was when it was left
-			inProgSnaps = append(inProgSnaps, before)
+			if isEntry(before.Line) && !(exact && pos == -1) {
+				// this may as well be a stored entry with the same text: the earlier state stays a candidate
+				inProgSnaps = append(inProgSnaps, before)
+			} else {
+				inProgSnaps = []*sim.Snap{before} // the most recent one: that is the state the line was left in
+			}
+		}
+		if (t.Cmd == "point-move" || t.Cmd == "point-edit") && exact && pos == -1 && after.Local == "" {
+			// still on the line being typed: its text and point as they are now
+			inProgress = after.Line
+			variants[after.Line] = true
+			continue
 		}
 		if !walk && !search {
 			// incremental search keys and exits: the model position is unknown afterwards;
@@ -598,7 +637,11 @@ func execC09(x *Ctx, sc *wire.Scenario) *wire.Result {
 		}
 		// the search text: what is left of the cursor, in the line shown or in the line being typed
 		var lefts []string
-		for _, w := range append([]*sim.Snap{before, lastInProg}, inProgSnaps...) {
+		cands := append([]*sim.Snap{before}, inProgSnaps...)
+		if len(inProgSnaps) == 0 {
+			cands = append(cands, lastInProg)
+		}
+		for _, w := range cands {
 			if w == nil {
 				continue
 			}
@@ -607,7 +650,7 @@ func execC09(x *Ctx, sc *wire.Scenario) *wire.Result {
 			if cp > len(rs) {
 				cp = len(rs)
 			}
-			lefts = append(lefts, string(rs[:cp]), w.Line)
+			lefts = append(lefts, string(rs[:cp])) // (an entry that starts with the whole line starts with this too)
 		}
 		lefts = dedupe(lefts)
 		okPrefix, okSub := false, false
